@@ -60,6 +60,8 @@ type Graph struct {
 	Defers []*ast.DeferStmt
 	sw     map[*ast.CaseClause]ast.Stmt
 
+	nodeOnce    sync.Once
+	nodeV       map[ast.Node]*V
 	flagsOnce   sync.Once
 	flags       bool
 	untOnce     sync.Once
@@ -207,6 +209,33 @@ func BuildGraph(f *Func, body *ast.BlockStmt) *Graph {
 // such vertex), or nil.  Nodes inside function literals belong to the
 // vertex that contains the literal.
 func (g *Graph) VertexOf(n ast.Node) *V {
+	// by identity first: two folded-in copies of one helper have the same
+	// positions, and only the node tells them apart
+	g.nodeOnce.Do(func() {
+		g.nodeV = map[ast.Node]*V{}
+		for _, v := range g.Vs {
+			if v.AST == nil {
+				continue
+			}
+			v := v
+			span := v.AST.End() - v.AST.Pos()
+			ast.Inspect(v.AST, func(m ast.Node) bool {
+				if m == nil {
+					return false
+				}
+				if _, isLit := m.(*ast.FuncLit); isLit {
+					return false
+				}
+				if old, ok := g.nodeV[m]; !ok || span < old.AST.End()-old.AST.Pos() {
+					g.nodeV[m] = v
+				}
+				return true
+			})
+		}
+	})
+	if v, ok := g.nodeV[n]; ok {
+		return v
+	}
 	var best *V
 	for _, v := range g.Vs {
 		if v.AST == nil {
@@ -692,6 +721,11 @@ func (g *Graph) namedCondition(obj types.Object, k int64, eq bool, calls bool) (
 					c++
 				}
 			case *ast.ValueSpec:
+				// a declaration without a value (the result variable of a folded-in helper,
+				// assigned once afterwards) is not a second definition
+				if len(x.Values) == 0 {
+					continue
+				}
 				for _, nm := range x.Names {
 					if g.Info.ObjectOf(nm) == o {
 						c++
